@@ -34,7 +34,7 @@ def main():
     args = [a for a in sys.argv[1:] if not a.startswith("--")]
     tier = "thorough" if "--thorough" in sys.argv else "quick"
     names = args or sorted(os.listdir(os.path.join(VERIF, "seeded")))
-    par = 2
+    par = 1
     q = list(names)
     lock = threading.Lock()
     def w():
